@@ -33,9 +33,9 @@ func (r *Rng) Intn(n int) int {
 	}
 	return int(r.U64() % uint64(n))
 }
-func (r *Rng) Range(lo, hi int) int { return lo + r.Intn(hi-lo+1) } // inclusive
-func (r *Rng) Bool() bool          { return r.U64()&1 == 1 }
-func (r *Rng) Chance(pct int) bool { return r.Intn(100) < pct }
+func (r *Rng) Range(lo, hi int) int     { return lo + r.Intn(hi-lo+1) } // inclusive
+func (r *Rng) Bool() bool               { return r.U64()&1 == 1 }
+func (r *Rng) Chance(pct int) bool      { return r.Intn(100) < pct }
 func (r *Rng) PickI64(xs []int64) int64 { return xs[r.Intn(len(xs))] }
 func (r *Rng) PickS(xs []string) string { return xs[r.Intn(len(xs))] }
 
@@ -59,8 +59,8 @@ func envStr(name, def string) string {
 	return def
 }
 
-func Seed() uint64 { return uint64(envInt("VERIF_SEED", 1)) }
-func Tier() string { return envStr("VERIF_TIER", "quick") }
+func Seed() uint64   { return uint64(envInt("VERIF_SEED", 1)) }
+func Tier() string   { return envStr("VERIF_TIER", "quick") }
 func OutDir() string { return envStr("VERIF_OUT", ".") }
 
 // Batch = (index, count): the driver runs several processes of one suite in parallel; each
